@@ -258,6 +258,12 @@ impl Exec {
         { let sum_av: u128 = after.epochs.iter().map(|e| nz(e.3)).sum();
           out.monitor_evals += 1;
           if after.bal != sum_av + self.strays { out.monitor_fail("C09", &format!("the distributor holds {} but the available amounts sum to {} and plain transfers added {}", after.bal, sum_av, self.strays), replay.clone()); } }
+        // claim cursors (Coq: C09_cursors): a cursor names a stored epoch and never moves back, whatever the call and its outcome
+        { out.monitor_evals += 1;
+          for i in 0..3 {
+              if after.cursors[i] < before.cursors[i] { out.monitor_fail("C09", &format!("the claim cursor of {} moved back from {} to {}", U[i], before.cursors[i], after.cursors[i]), replay.clone()); }
+              if after.cursors[i] > after.epochs.len() as i128 || after.cursors[i] == 0 { out.monitor_fail("C09", &format!("the claim cursor of {} is {} but {} epochs are stored", U[i], after.cursors[i], after.epochs.len()), replay.clone()); }
+          } }
         // whole-history conservation (Coq: C09_conservation): every unit ever forwarded is still available in some epoch or recorded as
         // claimed in some epoch, and the claimed ledgers sum to exactly what claimers were paid
         { let sum_av: u128 = after.epochs.iter().map(|e| nz(e.3)).sum();
